@@ -1533,3 +1533,63 @@ SPECS["C05"]["theorems"] += [
 SPECS["C05"]["level_text"] += (' Props/C05D (track apileft): WorldInv / ArenaInv / exposed_live at every call boundary of a decoder SESSION - across calls '
     'that returned Err (the decoder lives on, Props/C07W) and across drains through impl Read for ConsumingIovec - for borrowed / copied input (the guard half '
     'along anchored calls stays unproved, as in C05H); the session world is a WOp history (dec_session_is_wrun).')
+# ---------------------------------------------------------------------------------------------
+# track apileft-prefill (audit gap 15): Encoder::new_from_iovec / Decoder::new_from_iovec on a PRE-FILLED iovec
+SPECS["C01"]["lean_modules"] += ["Woodpile.Props.C01P"]
+SPECS["C01"]["theorems"] += [
+    "Woodpile.Props.C01P.fresh_is_prefilled",
+    "Woodpile.Props.C01P.noPending_is_prefilled",
+    "Woodpile.Props.C01P.prefilled_output",
+    "Woodpile.Props.C01P.prefilled_output_cells",
+    "Woodpile.Props.C01P.prefilled_abs_between_calls",
+    "Woodpile.Props.C01P.prefilled_post_fill",
+    "Woodpile.Props.C01P.prefilled_roundtrip",
+    "Woodpile.Props.C01P.dec_prefilled_output_cells",
+    "Woodpile.Props.C01P.dec_prefilled_output",
+    "Woodpile.Props.C01P.prefilled_roundtrip_both",
+    "Woodpile.Props.C01P.prescript_sim",
+]
+SPECS["C01"]["families"] += [dict(name="codecw", quick=64, thorough=1600, search=400, shards=dict(quick=8, thorough=16), obs_prefixes=["A", "R"])]
+SPECS["C01"]["level_text"] += (' Props/C01P (track apileft, audit gap 15): the composition theorems started from ANY world and iovec instead of World.fresh, i.e. '
+    'Encoder::new_from_iovec / Decoder::new_from_iovec on a PRE-FILLED OwningIovec (EncWorld.encRunFrom / decRunFrom; encRunA / decRunA are the instance World.fresh: '
+    'fresh_is_prefilled). Nothing pending at the hand-over - hypotheses IovInv and hasPending = false only, any bytes in any slice structure, partly consumed: '
+    'prefilled_output (drained ++ flatten = what the iovec held ++ Spec.encode p input; nothing pending), dec_prefilled_output (... ++ decoded data, verdict = Spec.decode\'s), '
+    'prefilled_roundtrip(_both). Caller placeholders still pending at the hand-over (hypothesis SimV: the iovec represents a pipe with the caller\'s tokens, which prescript_sim '
+    'proves of every iovec built from OwningIovec::new() by push / push_borrowed / push_copy / register_patch / backfill_or_panic / consume / advance_slices, the script vocabulary '
+    'EncWorld.PreOp of the driver ops enc_from2 / dec_from2): prefilled_output_cells / dec_prefilled_output_cells - the abstract cells are the cells the iovec stood for '
+    '(the caller\'s placeholders untouched) followed by the bytes of Spec.encode p input (the decoded data). The codec exposes only the read side of its iovec (consumer()), so a '
+    'caller placeholder pending at the hand-over can be filled only after finish / take_iovec: op post_fill, theorem prefilled_post_fill (the token the caller kept is still a pending backref of the iovec finish hands back, same key and geometry, and backfilling it fills exactly its cells). Proof route (Proofs/EncWorldPre, DecWorldPre): the encoder\'s '
+    'placeholder ids are shifted past the caller\'s (applyStep_shift), the real pipe is kept equal to the virtual fresh-start pipe of Proofs/HcobsEnc behind the prefix (Lifted), '
+    'and the per-op refinement lemmas are reused as they are. Family codecw: ops enc_from2 / dec_from2 <script> / post_fill, 32 enumerated prefill shapes x encoder/decoder plus '
+    'random scripts, direct oracle prefill ++ reference encoding / decoding on the real crates.')
+
+SPECS["C09"]["lean_modules"] += ["Woodpile.Props.C09P"]
+SPECS["C09"]["theorems"] += [
+    "Woodpile.Props.C09P.enc_lag_struct",
+    "Woodpile.Props.C09P.enc_lag_le",
+    "Woodpile.Props.C09P.enc_lag_le_prod",
+    "Woodpile.Props.C09P.fresh_capW",
+    "Woodpile.Props.C09P.enc_drained_stable_prefix",
+    "Woodpile.Props.C09P.enc_drained_complete",
+    "Woodpile.Props.C09P.enc_hidden_behind_caller",
+    "Woodpile.Props.C09P.dec_lag_zero",
+    "Woodpile.Props.C09P.dec_lag_unchanged",
+]
+SPECS["C09"]["level_text"] += (' Props/C09P (track apileft, audit gap 15): the structural lag / prefix / completeness theorems of Props/C09H from ANY pre-filled iovec '
+    '(new_from_iovec). Nothing pending at the hand-over (IovInv, hasPending = false): enc_lag_struct (exact lag; the slice holding the pending header may be a merge with the '
+    'caller\'s last copied slice, whose bytes then wait with it), enc_lag_le / enc_lag_le_prod (lag < S + max(maxInit,maxSub), 2^20 + 64008 + 2 in production, given that the iovec '
+    'handed over is in-capacity - CapW, preserved by every caller call with requests <= B, trivially true of a fresh iovec: fresh_capW), enc_drained_stable_prefix (drained ++ '
+    'stable prefix is a prefix of what the iovec held ++ Spec.encode of the WHOLE input), enc_drained_complete, dec_lag_zero. A caller placeholder pending at the hand-over: the lag '
+    'is unbounded BY DESIGN (C04) - enc_hidden_behind_caller: at every moment drained ++ stable prefix is a prefix of the bytes in front of the caller\'s first pending placeholder, '
+    'whatever the encoder appends; the decoder registers and fills nothing (dec_lag_unchanged). The harness suspends the constant-bound oracle while a caller placeholder is pending and '
+    'checks instead that nothing at or behind it is consumable.')
+
+SPECS["C02"]["lean_modules"] += ["Woodpile.Props.C02P"]
+SPECS["C02"]["theorems"] += [
+    "Woodpile.Props.C02P.prefilled_no_stuff",
+    "Woodpile.Props.C02P.prefilled_split_independent",
+    "Woodpile.Props.C02P.prefilled_length_bound_prod",
+]
+SPECS["C02"]["level_text"] += (' Props/C02P (track apileft, audit gap 15): for Encoder::new_from_iovec on a PRE-FILLED iovec (any IovInv iovec with nothing pending; see C01 / Props/C01P), '
+    'what the encoder ADDS behind the prefill - (drained ++ flatten) minus the bytes the iovec held - has no stuff sequence, is independent of segmentation / methods / drains AND of what '
+    'the iovec held or how it was structured, and obeys the production length bound.')
